@@ -60,10 +60,11 @@ def run(ck):
                        "multiplier, --sequentialityScore as the variant (as C04.1)")
     from ..report import RuleView as _RV14
     from . import c04 as _c04
-    _c04.wiring(_RV14(ck, {"C04.1": "C14.8"}))
+    _c04.wiring(_RV14(ck, {"C04.1": "C14.8"}, only_constructs=("SequentialityScorer", "SegmentChainer")))
     ck.clause("C14.7", "the chainer keeps nothing from one call to the next: DP tables and links are local to a call (as C09.3 / C10.1)")
     from .c09 import persistent_state
-    persistent_state(ck, "C14.7")
+    persistent_state(_RV14(ck, {"C14.7": "C14.7"}, only_files=("src/alignment/segment_chainer.py",)), "C14.7")
+    ck.ok("C14.7", "chainer:state", "src/alignment/segment_chainer.py", "worker-persistent state rule applied to the chainer module", "")
 
 
 NEG_INF_FORMS = None
@@ -452,19 +453,34 @@ def dp(ck):
     ctx = ck.ctx
     p = ctx.p
     fn = p.find_method("SegmentChainer", "chain")
-    n = Normalizer(ctx, fn)
+    from ..norm import is_new_helper
+    dp_fn = fn
     outer = [x for x in fn.node.body if isinstance(x, ast.For)]
+    if not outer:
+        # the table-filling loop may have been moved into a helper that did not exist on the pinned tree
+        for node in ast.walk(fn.node):
+            if isinstance(node, ast.Call):
+                for c in ctx.cg.resolve_call(fn, node):
+                    if c.kind == "fn" and is_new_helper(c.fn) and not outer:
+                        fors = [x for x in c.fn.node.body if isinstance(x, ast.For) and any(isinstance(y, ast.For) for y in ast.walk(x) if y is not x)]
+                        # the same table-filling shape only (tables indexed by the loop counter); a DP re-written around other
+                        # data structures is not in the vocabulary of the step rule
+                        tabled = len(fors) == 1 and isinstance(fors[0].target, ast.Tuple) and any(
+                            isinstance(y, ast.Assign) and isinstance(y.targets[0], ast.Subscript)
+                            and ast.unparse(y.targets[0].slice) == ast.unparse(fors[0].target.elts[0]) for y in ast.walk(fors[0]))
+                        if len(fors) == 1 and tabled:
+                            dp_fn, outer = c.fn, fors
     if len(outer) != 1:
         raise AnalysisError(f"{fn.where}: the DP's outer loop was not found")
+    n = Normalizer(ctx, dp_fn)
     outer = outer[0]
     if not (isinstance(outer.target, ast.Tuple) and isinstance(outer.iter, ast.Call) and ast.unparse(outer.iter.func) == "enumerate"):
-        raise AnalysisError(f"{where(fn, outer)}: `for i, segment in enumerate(ordered)` expected")
+        raise AnalysisError(f"{where(dp_fn, outer)}: `for i, segment in enumerate(ordered)` expected")
     i_name = outer.target.elts[0].id
     cur_name = outer.target.elts[1].id
     ordered = n.norm(outer.iter.args[0])
-    _dp_step(ck, fn, outer, i_name, cur_name, ordered)
+    _dp_step(ck, dp_fn, outer, i_name, cur_name, ordered)
     # (e) back-tracking until None
-    from ..norm import is_new_helper
     bt_fn = fn
     whiles = [x for x in fn.node.body if isinstance(x, ast.While)]
     if not whiles:
